@@ -155,7 +155,13 @@ func (sc *Scheduler) Schedule(ctx context.Context, g *ExecutionGraph, done chan 
 					sc.lastError = err
 					node.setErr(err)
 				}
+				// handedBack: this worker has given the node back to the loop for
+				// a retry. From then on the node belongs to the relaunched attempt.
+				handedBack := false
 				defer func() {
+					if handedBack {
+						return
+					}
 					_ = sc.teardownNode(node)
 				}()
 
@@ -190,6 +196,11 @@ func (sc *Scheduler) Schedule(ctx context.Context, g *ExecutionGraph, done chan 
 							)
 							time.Sleep(node.data.Step.RetryPolicy.Interval)
 							node.setRetriedAt(time.Now())
+							// Flush and close this attempt's files before the node
+							// can be relaunched: a teardown after that point would
+							// close the files of the new attempt.
+							_ = sc.teardownNode(node)
+							handedBack = true
 							node.setStatus(NodeStatusNone)
 						default:
 							// finish the node
@@ -201,7 +212,7 @@ func (sc *Scheduler) Schedule(ctx context.Context, g *ExecutionGraph, done chan 
 					if node.State().Status != NodeStatusCancel {
 						node.incDoneCount()
 					}
-					if node.data.Step.RepeatPolicy.Repeat {
+					if node.data.Step.RepeatPolicy.Repeat && !handedBack {
 						if execErr == nil || node.data.Step.ContinueOn.Failure {
 							if !sc.isCanceled() {
 								time.Sleep(node.data.Step.RepeatPolicy.Interval)
